@@ -17,8 +17,11 @@ def judgeHist (id rest impl : String)
   let c := parsePCase id rest
   let mo := runP c
   let (io, _) := parsePObs2 impl
-  { corr := proj c mo == proj c io, oi := oracle c c.ops io, om := oracle c c.ops mo,
-    region := region c io, nt := nt c io }
+  -- the oracles read the convenience calls as the explicit-timestamp calls they stand for
+  let ci := { c with ops := explicitOps c io }
+  let cm := { c with ops := explicitOps c mo }
+  { corr := proj c mo == proj c io, oi := oracle ci ci.ops io, om := oracle cm cm.ops mo,
+    region := region ci io, nt := nt ci io }
 
 def regionAvReordered (c : PCase) (o : PObs) : String :=
   if audioConfigured c && reordered (accV c.ops o) && !(accA c.ops o).isEmpty then "av-reordered" else "-"
@@ -39,11 +42,11 @@ def judgeC08 (id rest impl : String) : Verdict :=
     (fo == [tag "ftyp", tag "moov", tag "mdat"]) &&
     (so == [tag "ftyp", tag "mdat", tag "moov"] || so == [tag "ftyp", tag "moov"]) &&
     movieOf a.file false == movieOf b.file false &&
-    oracleC01 c c.ops a && oracleC01 c c.ops b && acceptPattern a == acceptPattern b
+    oracleC01 c (explicitOps c a) a && oracleC01 c (explicitOps c b) b && acceptPattern a == acceptPattern b
   let proj (a b : PObs) : String := movieOf a.file false ++ "##" ++ movieOf b.file false ++ "##" ++ projOffsets a.file ++ projOffsets b.file
   { corr := proj mo mo2 == proj io io2, oi := oracle io io2, om := oracle mo mo2,
-    region := regionAvReordered c io,
-    nt := finishOkOps c.ops io && (accV c.ops io).length + (accA c.ops io).length ≥ 2 }
+    region := regionAvReordered { c with ops := explicitOps c io } io,
+    nt := finishOkOps c.ops io && (accV (explicitOps c io) io).length + (accA (explicitOps c io) io).length ≥ 2 }
 
 def judgeC18 (id rest impl : String) : Verdict :=
   let c := parsePCase id rest
@@ -55,7 +58,7 @@ def judgeC18 (id rest impl : String) : Verdict :=
     | some b => movieOf a.file true == movieOf b.file true && acceptPattern a == acceptPattern b
   let mo2 := runPTwin c mo
   { corr := projMeta mo.file == projMeta io.file && (mo2.map (movieOf ·.file true)) == (io2?.map (movieOf ·.file true)),
-    oi := oracleC18 c c.ops io && inert io io2?, om := oracleC18 c c.ops mo && inert mo mo2,
+    oi := oracleC18 c (explicitOps c io) io && inert io io2?, om := oracleC18 c (explicitOps c mo) mo && inert mo mo2,
     nt := finishOkOps c.ops io && c.cfg.md.isSome }
 
 /-- C13: prefix, error iff a write failed, silence afterwards, transparency -/
@@ -126,7 +129,10 @@ def judgeC12 (kind id rest impl : String) : Verdict :=
       om := !(mo.replies.any fun r => r.1 == PR.panic), nt := true }
 
 def regionC06 (c : PCase) (o : PObs) : String :=
-  if reordered (accV c.ops o) then "reordered-duration" else "-"
+  -- a double holds whole ticks exactly only below 2^53: beyond that `duration_secs` (an f64 number of
+  -- seconds) cannot be within one tick of the exact end time, whatever the code does
+  if ((accV c.ops o).map (·.tp) ++ (accA c.ops o).map (·.tp)).any (· ≥ 2 ^ 53) then "stats-duration-f64-precision"
+  else if reordered (accV c.ops o) then "reordered-duration" else "-"
 
 def regionC09 (c : PCase) (o : PObs) : String :=
   match (accV c.ops o).head?, (accA c.ops o).head? with
